@@ -369,3 +369,73 @@ Proof. intros call. rewrite C14_order; [reflexivity| |].
   - repeat constructor; cbn; intuition discriminate.
   - cbn. intuition discriminate.
 Qed.
+
+(* ==== LOOP / PER-ROW TIES (function-body translator, tools/fnspecs/segfilters_loops.py) ====
+   The table code of enumerate_changes, squash_by_groups, squash_region, ampdel's row filter
+   and the require_column wrapper, read per element / per region and translated from the
+   source text on every run (Gen/FnSegEnum.v, FnSegSquash.v, FnSegGroups.v, FnSegWrap.v). *)
+From CNV Require Import Proofs.FnSegEnum Proofs.FnSegSquash Proofs.FnSegGroups Proofs.FnSegWrap.
+From CNV Require Gen.FnSegEnum Gen.FnSegSquash Gen.FnSegGroups Gen.FnSegWrap.
+
+(* enumerate_changes, one element: `changed` = the level differs from the one before (two missing
+   levels do not differ), never at position 0 *)
+Theorem C14_source_enum_changed : forall (c prev : option Q) (k n : Z),
+  Gen.FnSegEnum.fn_enum_changed c prev k n = if k <? 1 then false else negb (optQ_eqb prev c).
+Proof. exact source_enum_changed. Qed.
+
+(* enumerate_changes IS the cumulative sum of the generated bit *)
+Theorem C14_source_enumerate : forall l : list (option Q),
+  enumerate_changes l = src_enum 0 0 (Z.of_nat (length l)) None l.
+Proof. exact source_enumerate. Qed.
+
+(* squash_region: the output columns of one region ARE the generated ones on the model's aggregates *)
+Theorem C14_source_squash_region : forall (s0 : seg) (rest : list seg) (n_rows : Z),
+  let r := s0 :: rest in
+  let ws := map weight r in
+  let s := squash_region r in
+  let '(l2, g, p, w, d, b, c, c1, c2, pb) :=
+    Gen.FnSegSquash.fn_squash_region (sumQ ws)
+      (wavg ws (map log2 r)) (pmean (map log2 r))
+      (uniq_str (map gene r))
+      true (sumZ (map probes r)) n_rows
+      true (wavg_opt ws (map depth r)) (pmean_opt (map depth r))
+      true (wavg_opt ws (map baf r)) (pmean_opt (map baf r))
+      true (Some (wmedian (map cn r) ws)) (Some (median (map cn r)))
+      true (wmedian_opt (map cn1 r) ws) (median_opt (map cn1 r))
+      true (fold_right omax None (map pbt r)) in
+  (l2, g, p, w, d, b, c, c1, option_map Qred c2, pb) =
+  (log2 s, gene s, probes s, weight s, depth s, baf s, Some (cn s), cn1 s, cn2 s, pbt s).
+Proof. exact source_squash_region. Qed.
+
+(* ... where wmean / wmean_opt are the two generated sides under the `region_weight > 0` switch *)
+Theorem C14_source_squash_sides : forall (ws : list Q) (xs : list Q) (ys : list (option Q)),
+  wmean ws xs = (if Qltb Gen.SegfilterDefaults.region_weight_min (sumQ ws) then wavg ws xs else pmean xs) /\
+  wmean_opt ws ys = (if Qltb Gen.SegfilterDefaults.region_weight_min (sumQ ws) then wavg_opt ws ys else pmean_opt ys).
+Proof. exact source_squash_sides. Qed.
+
+(* `probes` falls back to the row count, `weight` is the summed weight, whatever the other columns *)
+Theorem C14_source_squash_probes : forall (W a1 a2 : Q) (genes : list string) (hp : bool) (ps n : Z)
+      (f1 f2 f3 f4 f5 : bool) (d1 d2 b1 b2 c1 c2 e1 e2 pb : option Q),
+  let '(_, _, p, w, _, _, _, _, _, _) :=
+    Gen.FnSegSquash.fn_squash_region W a1 a2 genes hp ps n f1 d1 d2 f2 b1 b2 f3 c1 c2 f4 e1 e2 f5 pb in
+  p = (if hp then ps else n) /\ w = W.
+Proof. exact source_squash_probes. Qed.
+
+(* squash_by_groups' `_group` key and ampdel's closing row filter *)
+Theorem C14_source_group_key : forall (levels : list (option Q)) (t : list seg),
+  squash_by_groups levels t =
+  let names := map chrom t in
+  let u := uniq_str names in
+  let keys := src_keys (enumerate_changes levels) (map (fun c => index_of c u) names)
+                       (enumerate_changes (map cn1 t)) (enumerate_changes (map cn2 t)) in
+  map (fun kg => squash_region (snd kg)) (group_by_key (combine keys t)).
+Proof. exact source_squash_by_groups. Qed.
+
+Theorem C14_source_ampdel_keep : forall (d : Z) (t : list seg),
+  apply_filter Fampdel t = filter (fun o => Gen.FnSegGroups.fn_ampdel_keep d (cn o)) (squashed Fampdel t).
+Proof. exact source_apply_ampdel. Qed.
+
+(* require_column: past the column guard the wrapper returns the filter's own result *)
+Theorem C14_source_wrapper : forall (enc : list seg -> Z) (name : string) (f : filt) (t : list seg),
+  Gen.FnSegWrap.fn_wrapped (enc t) name (enc (apply_filter f t)) = enc (apply_filter f t).
+Proof. exact source_wrapped_filter. Qed.
